@@ -250,7 +250,9 @@ func (b *circuitBreakerBase) fromOpenToHalfOpen(openWord int32, ctx *base.EntryC
 			// be half-open again with another probe in flight.
 			halfOpenWord := nextWord(openWord, HalfOpen)
 			entry.WhenExit(func(entry *base.SentinelEntry, ctx *base.EntryContext) error {
-				if ctx.IsBlocked() && b.state.casWord(halfOpenWord, Open) {
+				// (a probe that was admitted through a recovered panic of a later slot is not reported as
+				// completed either: without handing the passage back the breaker stayed half-open for good)
+				if (ctx.IsBlocked() || ctx.IsPassedByInternalError()) && b.state.casWord(halfOpenWord, Open) {
 					for _, listener := range stateChangeListeners {
 						listener.OnTransformToOpen(HalfOpen, *b.rule, 1.0)
 					}
